@@ -10,45 +10,54 @@
 EXTENDS Integers, Sequences, FiniteSets, TLC
 CONSTANTS MaxQ
 Clients == 1..2
-VARIABLES cs,      \* cs[c] \in {"new", "pending", "accepted"}
+\* listeners: 0 = bound to a path name; 1..3 = bound to ABSTRACT names (leading NUL, length-delimited): a short one,
+\* one with interior NUL bytes, one of maximal length - there the address LENGTH carried by connect matters.
+\* Client 1 connects to the path listener, client 2 (itself bound to an abstract name, so that accept reports a peer
+\* address of non-trivial length) to one of the abstract listeners.
+VARIABLES lis,     \* lis[c]: the listener client c connected to
+          cs,      \* cs[c] \in {"new", "pending", "accepted"}
           order,   \* clients waiting in the listener's backlog, oldest first
           q,       \* q[c]: bytes the client sent that the server side has not received
           fdq      \* fdq[c]: the queued byte carries a passed descriptor
-svars == <<cs, order, q, fdq>>
+svars == <<lis, cs, order, q, fdq>>
 
-SInit == /\ cs = [c \in Clients |-> "new"] /\ order = <<>>
+SInit == /\ cs = [c \in Clients |-> "new"] /\ order = <<>> /\ lis = [c \in Clients |-> 0]
          /\ q = [c \in Clients |-> 0] /\ fdq = [c \in Clients |-> FALSE]
 
-Connect(c) ==      \* result 0, or -EISCONN on a connected socket
+Connect(c, l) ==   \* result 0, or -EISCONN on a connected socket
+    /\ IF c = 1 THEN l = 0 ELSE l \in 1..3
     /\ IF cs[c] = "new"
-       THEN cs' = [cs EXCEPT ![c] = "pending"] /\ order' = Append(order, c)
-       ELSE UNCHANGED <<cs, order>>
+       THEN cs' = [cs EXCEPT ![c] = "pending"] /\ order' = Append(order, c) /\ lis' = [lis EXCEPT ![c] = l]
+       ELSE UNCHANGED <<cs, order, lis>>
     /\ UNCHANGED <<q, fdq>>
-Accept ==          \* result: a descriptor for the oldest pending connection
-    /\ order # <<>>
-    /\ cs' = [cs EXCEPT ![Head(order)] = "accepted"] /\ order' = Tail(order)
-    /\ UNCHANGED <<q, fdq>>
+Accept(l) ==       \* on listener l; result: a descriptor for the connection pending there
+    /\ \E i \in 1..Len(order) :
+         /\ lis[order[i]] = l
+         /\ cs' = [cs EXCEPT ![order[i]] = "accepted"]
+         /\ order' = [j \in 1..(Len(order) - 1) |-> IF j < i THEN order[j] ELSE order[j + 1]]
+    /\ UNCHANGED <<q, fdq, lis>>
 Send(c, n) ==      \* result n, or -ENOTCONN
     /\ n \in {1, 5} /\ ~fdq[c]
     /\ IF cs[c] = "new" THEN UNCHANGED q
        ELSE q[c] + n <= MaxQ /\ q' = [q EXCEPT ![c] = @ + n]
-    /\ UNCHANGED <<cs, order, fdq>>
+    /\ UNCHANGED <<cs, order, fdq, lis>>
 SendFd(c) ==       \* one byte carrying one descriptor, only onto an empty queue
     /\ cs[c] # "new" /\ q[c] = 0 /\ ~fdq[c]
     /\ q' = [q EXCEPT ![c] = 1] /\ fdq' = [fdq EXCEPT ![c] = TRUE]
-    /\ UNCHANGED <<cs, order>>
+    /\ UNCHANGED <<cs, order, lis>>
 Recv(c, n) ==      \* result min(n, queued)
     /\ n \in {3, 16} /\ cs[c] = "accepted" /\ q[c] > 0
     /\ q' = [q EXCEPT ![c] = IF @ > n THEN @ - n ELSE 0]
     /\ fdq' = [fdq EXCEPT ![c] = FALSE]
-    /\ UNCHANGED <<cs, order>>
+    /\ UNCHANGED <<cs, order, lis>>
 
 Peek(c, n) ==      \* recvmsg with MSG_PEEK: result min(n, queued), nothing consumed
     /\ n \in {3, 16} /\ cs[c] = "accepted" /\ q[c] > 0 /\ ~fdq[c]
     /\ UNCHANGED svars
 
-SNext == \/ \E c \in Clients : Connect(c) \/ SendFd(c)
-         \/ Accept
+SNext == \/ \E c \in Clients : SendFd(c)
+         \/ \E c \in Clients, l \in 0..3 : Connect(c, l)
+         \/ \E l \in 0..3 : Accept(l)
          \/ \E c \in Clients, n \in {1, 5} : Send(c, n)
          \/ \E c \in Clients, n \in {3, 16} : Recv(c, n) \/ Peek(c, n)
 
